@@ -458,6 +458,9 @@ writeloop:
 				default:
 					return dst, errors.New("root tag, but not at top of stack, got id " + strconv.Itoa(int(l)))
 				}
+			} else if !isOpenRoot {
+				// Closing root with nothing open: end of the scope of this iterator.
+				break writeloop
 			}
 
 			if isOpenRoot {
